@@ -18,6 +18,18 @@ def gen_pred_case(rng, model=None, regime=None, kmax=8, pmax=8):
         keep = rng.sample(range(len(teams)), rng.choice([2, 3]) if len(teams) > 3 else 2)
         teams = [teams[i] if i in keep else other[i] for i in range(len(teams))]
         regime = "partly_identical"
+    if regime in ("identical", "partly_identical", "equal_size") and rng.random() < 0.35:
+        # NEARLY level teams: a copy of another team with one member's mu moved by 1 ulp .. 1e-9 relative (strictly
+        # different probabilities that a tolerance-based tie test would merge)
+        i, j = rng.sample(range(len(teams)), 2)
+        teams[j] = [list(p) for p in teams[i]]
+        for p_i, p in enumerate(teams[j]):
+            p[2] = f"n{j}_{p_i}"
+        w = rng.randrange(len(teams[j]))
+        mu = teams[j][w][0]
+        step = rng.choice(["ulp", 1e-15, 1e-12, 1e-10, 3e-10, 1e-9])
+        teams[j][w][0] = math.nextafter(mu, math.inf) if step == "ulp" else mu + max(abs(mu), cfg["beta"]) * step * rng.choice([1, -1])
+        regime = "near_identical"
     case = dict(model=model, cfg=cfg, teams=teams, sel=None, vals=None, call={})
     if rng.random() < 0.1:
         case["ids"] = "shared"  # distinct objects carrying the same id string (deepcopy clones keep the id)
